@@ -87,6 +87,7 @@ def plan(tier):
             "krylov:real-start-complex-map", "krylov:dt-real+", "krylov:dt-real-", "krylov:dt-imag+",
             "krylov:dt-imag-", "krylov:dt-complex", "krylov:n=1", "krylov:invariant-subspace", "krylov:degenerate",
             "krylov:rank-deficient", "krylov:diagonal", "krylov:block_size=2", "krylov:block_size=50",
+            "krylov:fault:eigh_tridiagonal-fails", "svd:fault:gesdd-fails",
             "svd:left-only-sector", "svd:right-only-sector", "svd:two-component", "svd:single-sector",
             "svd:opt-branch", "svd:complex", "svd:two-index-side", "svd:zero-block", "eigh:L", "eigh:R",
             "eigh:rank-deficient", "insitu:tdvp_ps", "insitu:tdvp_ps2", "insitu:dmrg-2roots", "insitu:ttns-tdvp_ps", "insitu:imaginary-time",
@@ -326,11 +327,26 @@ def _krylov_case(ctx):
         before = monitors.COUNTS.get("krylov_post_checked", 0)
         v0 = v.copy()
         ctx.evaluations += 1
+        # injected fault: the tridiagonal eigensolver "fails to converge" - the documented fallback (dense eigh of the same
+        # tridiagonal matrix) must give the same result
+        inject = (k % 4 == 3)
+        import renormalizer.lib.krylov.krylov as kmod
+        real_eigh = kmod.eigh_tridiagonal
+        if inject:
+            ctx.cls("krylov:fault:eigh_tridiagonal-fails")
+            d["injected_fault"] = "eigh_tridiagonal raises LinAlgError"
+
+            def failing(*_a, **_k):
+                ctx.count("faults_injected:eigh_tridiagonal")
+                raise np.linalg.LinAlgError("injected: eigenvalues did not converge")
+            kmod.eigh_tridiagonal = failing
         try:
             r, nvec = expm_krylov(_afunc(a, style), dt, v, bs)
         except Exception as e:  # noqa: BLE001 - every generated input is inside the promised class
-            _crash(ctx, f"krylov|{cls}", e, **d)
+            _crash(ctx, f"krylov|{cls}" + ("|after-injected-eigensolver-failure" if inject else ""), e, **d)
             continue
+        finally:
+            kmod.eigh_tridiagonal = real_eigh
         last = dict(kc.LAST_KRYLOV)
         d["iterations"], d["exit"], d["grew"] = int(nvec), last.get("exit"), last.get("grew")
         if last.get("exit") in kc.EXIT_BRANCHES:
@@ -362,6 +378,29 @@ def _krylov_case(ctx):
         if int(nvec) >= 2:
             ctx.nontrivial(("krylov", ctx.idx, k))
     ctx.describe({"kind": "krylov", "runs": descs})
+
+
+class _FailingGesdd:
+    """Stand-in for the `scipy` name inside renormalizer.mps.svd_qn: everything passes through, except that
+    scipy.linalg.svd with the gesdd driver raises LinAlgError."""
+
+    def __init__(self, real, ctx):
+        self._real, self._ctx = real, ctx
+        outer = self
+
+        class _Linalg:
+            def __getattr__(self, name):
+                return getattr(real.linalg, name)
+
+            def svd(self, a, *args, **kwargs):
+                if kwargs.get("lapack_driver", "gesdd") == "gesdd":
+                    outer._ctx.count("faults_injected:gesdd")
+                    raise real.linalg.LinAlgError("injected: SVD did not converge")
+                return real.linalg.svd(a, *args, **kwargs)
+        self.linalg = _Linalg()
+
+    def __getattr__(self, name):
+        return getattr(self._real, name)
 
 
 # =============================================================================================== svd_qn
@@ -512,13 +551,25 @@ def _svd_case(ctx):
         if d["content"] == "zero-block":
             ctx.cls("svd:zero-block")
         keep = coef.copy()
+        inject = (k % 3 == 2)
+        if inject:
+            ctx.cls("svd:fault:gesdd-fails")
+            d["injected_fault"] = "scipy.linalg.svd(lapack_driver='gesdd') raises LinAlgError"
         for QR, system, full, opt in MODES:
             mode = kc.svd_qn_mode(QR, system, full)
             before = monitors.COUNTS.get("svd_qn_contract_evals", 0)
             env.reseed_global(rng)          # add_orthonormal_basis draws from the global numpy RNG
             ctx.evaluations += 1
+            real_scipy = mod.scipy
+            if inject:
+                # injected fault, visible to the module under test only: the divide-and-conquer driver "does not converge";
+                # the documented fallback (gesvd) must serve the call
+                mod.scipy = _FailingGesdd(real_scipy, ctx)
             try:
-                mod.svd_qn(coef, qnl, qnr, qntot, QR=QR, system=system, full_matrices=full, opt_full_matrices=opt)
+                try:
+                    mod.svd_qn(coef, qnl, qnr, qntot, QR=QR, system=system, full_matrices=full, opt_full_matrices=opt)
+                finally:
+                    mod.scipy = real_scipy
             except ValueError as e:
                 if "Invalid quantum number" in str(e) and len(sectors) == 0:
                     ctx.refuse("svd_qn: Invalid quantum number (no sector has entries on both sides)")
